@@ -1,3 +1,165 @@
+/-
+  Model driver of engine `loop` (C06).
+
+  The per-connection step of the model is a parameter; here it is instantiated
+  with the outcomes the real code produced (token list `out=` of each round,
+  taken by tools/props/C06.py from the harness log).  The model then predicts
+  what the *loop* does: which handler is called on which connection in which
+  order, list contents and order, flags, fd sets, hint class.
+
+    mode <select|poll|epoll> suspend=<0|1>
+    new <c> nb=<0|1> tmo=<ms>
+    resume <c>
+    round r=<ids> w=<ids> e=<ids> out=<tokens>        (select, poll)
+    round ev=<c:ioe,…> out=<tokens>                   (epoll)
+  ids: comma separated or `-`;  token: kind.c.st.eli.ep.bs.wh
+-/
+import Mhd.Model.LoopRounds
 import Driver.Common
-/- stub: replaced by the builder of this engine -/
-def main : IO Unit := Driver.runEngine () (fun s _ => (s, ["bad-op"]))
+open Mhd.Loop Mhd.Gen.Loop Driver
+
+structure Outc where
+  kind : String
+  c : Nat
+  st : Nat
+  eli : Eli
+  ep : Nat
+  bs : Bool
+  wh : Wh
+
+structure DSt where
+  mode : String := "select"
+  d : Daemon Unit := {}
+
+def splitList (s : String) : List String :=
+  if s == "-" || s == "" then [] else s.splitOn ","
+
+def natList (s : String) : Option (List Nat) :=
+  (splitList s).mapM (·.toNat?)
+
+def whOf : String → Option Wh
+  | "A" => some .active | "S" => some .susp | "C" => some .cleanup | _ => none
+
+def parseOutc (t : String) : Option Outc :=
+  match t.splitOn "." with
+  | [k, c, st, eli, ep, bs, wh] => do
+    let c ← c.toNat?
+    let st ← st.toNat?
+    let e ← Eli.ofCode? (← eli.toNat?)
+    let ep ← ep.toNat?
+    let bs ← bs.toNat?
+    let wh ← whOf wh
+    if k ∈ ["read", "write", "idle", "close"] then some ⟨k, c, st, e, ep, bs != 0, wh⟩ else none
+  | _ => none
+
+/-- the n-th outcome recorded for connection `c` -/
+def nth (tbl : List Outc) (c n : Nat) : Option Outc :=
+  (tbl.filter (·.c == c))[n]?
+
+def locOf (o : Outc) : Local Unit :=
+  { st := o.st, eli := o.eli, rdReady := o.ep &&& epReadReady != 0, wrReady := o.ep &&& epWriteReady != 0,
+    bufSpace := o.bs, w := () }
+
+def opsOf (tbl : List Outc) : Ops Unit :=
+  { read := fun c k _ l => match nth tbl c k with
+      | some o => if o.kind == "read" then locOf o else l
+      | none => l
+    write := fun c k l => match nth tbl c k with
+      | some o => if o.kind == "write" then locOf o else l
+      | none => l
+    close := fun c k l => match nth tbl c k with
+      | some o => if o.kind == "close" then locOf o else l
+      | none => l
+    idle := fun c k wh l => match nth tbl c k with
+      | some o => if o.kind == "idle" then (locOf o, o.wh) else (l, wh)
+      | none => (l, wh) }
+
+def resetK (d : Daemon Unit) : Daemon Unit :=
+  let z := fun (c : Conn Unit) => { c with k := 0 }
+  { d with conns := d.conns.map z, susp := d.susp.map z, cleanup := d.cleanup.map z, newc := d.newc.map z, log := [] }
+
+def epOf (c : Conn Unit) : Nat :=
+  (if c.loc.rdReady then epReadReady else 0) + (if c.loc.wrReady then epWriteReady else 0)
+  + (if c.inEready then epInEready else 0) + (if c.inEpollSet then epInEpollSet else 0)
+  + (if c.epSusp then epSuspended else 0) + (if c.epError then epError else 0)
+
+def showConns (l : List (Conn Unit)) : String :=
+  "[" ++ ",".intercalate (l.map fun c => s!"{c.id}.{c.loc.st}.{c.loc.eli.code}.{epOf c}.{if c.resuming then 1 else 0}") ++ "]"
+
+def showIds (l : List Nat) : String := "[" ++ ",".intercalate (l.map toString) ++ "]"
+
+def showEv : Ev → String
+  | .read c => s!"read.{c}" | .write c => s!"write.{c}" | .idle c => s!"idle.{c}" | .close c => s!"close.{c}"
+
+def b01 (b : Bool) : String := if b then "1" else "0"
+
+def showHint : Hint → String
+  | .none => "none" | .zero => "0" | .deadline => "some"
+
+def showState (d : Daemon Unit) (epoll : Bool) : String :=
+  let fs := getFdset d
+  let srt := fun (l : List Nat) => l.mergeSort (fun a b => a ≤ b)   -- fd_sets are sets
+  let fd := if epoll then "ep" else s!"r:{showIds (srt fs.r)};w:{showIds (srt fs.w)};e:{showIds (srt fs.e)}"
+  s!"A={showConns d.conns} S={showConns d.susp} C={showConns d.cleanup} N={showIds (d.newc.map (·.id))} E={showIds d.eready} " ++
+  s!"dap={b01 d.dap} res={b01 d.resuming} new={b01 d.haveNew} fdset={fd} hint={showHint (getTimeout d)}" ++
+  (match d.fault with | some f => s!" fault={f.replace " " "_"}" | none => "")
+
+def kvOf (ws : List String) (key : String) : Option String :=
+  ws.findSome? fun w => if w.startsWith (key ++ "=") then some ((w.drop (key.length + 1)).toString) else none
+
+def parseEvs (s : String) : Option (List EpEv) :=
+  (splitList s).mapM fun t =>
+    match t.splitOn ":" with
+    | [c, m] => do
+      let c ← c.toNat?
+      some (EpEv.mk c (m.contains 'i') (m.contains 'o') (m.contains 'e'))
+    | _ => none
+
+def stepLine (s : DSt) (ws : List String) : DSt × List String :=
+  match ws with
+  | "mode" :: m :: rest =>
+    if m ∈ ["select", "poll", "epoll"] then
+      let sus := (kvOf rest "suspend").getD "1" != "0"
+      ({ mode := m, d := { epoll := m == "epoll", allowSuspend := sus } }, ["ok"])
+    else (s, ["bad-op"])
+  | "new" :: c :: rest =>
+    match c.toNat?, ((kvOf rest "nb").getD "1").toNat?, ((kvOf rest "tmo").getD "0").toNat? with
+    | some c, some nb, some tmo =>
+      if (s.d.lookup c).isSome || (findConn s.d.newc c).isSome then (s, ["bad-op"]) else
+      let loc0 : Local Unit := { st := stInit, eli := .read, rdReady := false, wrReady := false, bufSpace := true, w := () }
+      let conn : Conn Unit := { id := c, nonblock := (nb != 0), tmo := tmo, loc := loc0 }
+      let d := addConn s.d conn
+      ({ s with d := d }, ["state " ++ showState d (s.mode == "epoll")])
+    | _, _, _ => (s, ["bad-op"])
+  | ["resume", c] =>
+    match c.toNat? with
+    | some c =>
+      if (findConn s.d.susp c).isNone then (s, ["bad-op"]) else
+      let d := resumeReq s.d c
+      ({ s with d := d }, ["state " ++ showState d (s.mode == "epoll")])
+    | none => (s, ["bad-op"])
+  | "round" :: rest =>
+    match ((kvOf rest "out").getD "-" |> splitList).mapM parseOutc with
+    | none => (s, ["bad-op"])
+    | some tbl =>
+      let ops := opsOf tbl
+      let d0 := resetK s.d
+      let res : Option (Daemon Unit) :=
+        if s.mode == "epoll" then
+          match parseEvs ((kvOf rest "ev").getD "-") with
+          | some evs => some (epollRound ops d0 evs)
+          | none => none
+        else
+          match natList ((kvOf rest "r").getD "-"), natList ((kvOf rest "w").getD "-"), natList ((kvOf rest "e").getD "-") with
+          | some r, some w, some e =>
+            let rdy : Ready := { r := r, w := w, e := e }
+            some (if s.mode == "poll" then pollAll ops d0 rdy else runFromSelect ops d0 rdy)
+          | _, _, _ => none
+      match res with
+      | none => (s, ["bad-op"])
+      | some d =>
+        let calls := ",".intercalate (d.log.reverse.map showEv)
+        ({ s with d := d }, [s!"round calls=[{calls}] " ++ showState d (s.mode == "epoll")])
+  | _ => (s, ["bad-op"])
+
+def main : IO Unit := Driver.runEngine ({} : DSt) stepLine
